@@ -209,6 +209,10 @@ func (s *JavaFullListener) EnterInterfaceMethodDeclaration(ctx *parser.Interface
 	position := BuildPosition(ctx.BaseParserRuleContext, name)
 
 	method := &core_domain.CodeFunction{Name: name, ReturnType: typeType, Position: position}
+	if buildMethodParameters(bodyDecl.FormalParameters(), method) {
+		return
+	}
+
 	updateMethod(method)
 }
 
